@@ -53,16 +53,30 @@ end Kernel
 /-! ## Micro-step semantics: the unit of interleaving
 
 One micro-step = one weight row processing one event (the body of
-`for ii in range(start, end)`); concurrent kernel calls interleave at this
-granularity (or finer — see C02 for the data-race-freedom argument that makes
-this granularity sufficient). -/
+`for ii in range(start, end)`); concurrent kernel calls are modelled as
+interleaving at this granularity.
+
+ASSUMPTION `MicroStepAtomicity` (named in the header of PyndlProps/C02.lean,
+NOT proved): the real kernels perform a micro-step as a sequence of loads and
+stores of cells of ONE weight row, and concurrent kernel calls interleave at
+the level of those accesses (or finer).  Every access-level, sequentially
+consistent interleaving of kernel calls that own pairwise disjoint rows is
+assumed to leave the weights that SOME micro-step-level interleaving leaves.
+What is proved towards it: micro-steps of different rows touch disjoint cells
+(`C02.footprint_disjoint`), hence commute (`C02.micro_steps_commute`), and the
+result of any schedule depends only on its per-row projections
+(`C02.schedule_determined_by_row_projections`); micro-steps of the same row
+belong to the same kernel call (`PartsOk.disjoint`) and are therefore already
+ordered.  The model has no access-level semantics, so the reduction itself
+(Lipton-style: move each access of a micro-step next to its last access) is
+not formalised. -/
 
 structure MicroStep where
   part : Nat            -- which kernel call (thread / prange iteration) performs it
   file : Nat            -- index of the chunk file
   row : Nat             -- weight row (outcome id)
   ev : Event Nat Nat
-deriving Repr
+deriving Repr, DecidableEq
 
 section Exec
 variable {R : Type} [Add R] [Sub R] [Mul R] [Zero R]
